@@ -80,6 +80,43 @@ def gen_bin_value(rng, fd):
     return fl.gen_value(rng, fd, missing=0)
 
 
+HIST_OPS = ("r", "r", "r", "r", "w", "w", "v", "f", "g")
+
+
+def gen_history(rng, fs):
+    """an object history over ONE set of Field objects: 2-3 records (independent, or differing from the first in one field, or
+    equal to it) and 3-8 steps, each through one of 1-3 Line objects declared over the same Field objects (what Register does
+    with its class-level LINE) or through a Line made for that step alone (line index -1):
+      ["w", li, r]     line.write(values of record r)             -> bytes, judged
+      ["r", li, r]     line.read(reference bytes of record r)     -> values, judged
+      ["v", li, r]     line.values = values of record r           (nothing observed)
+      ["f", li, r, i]  line.fields[i].value = value i of record r (nothing observed)
+      ["g", li, r, i]  line.fields[i].read(bytes of record r)     -> value, judged"""
+    nrec = rng.randint(2, 3)
+    recs = [[gen_bin_value(rng, fd) for fd in fs]]
+    while len(recs) < nrec:
+        c = rng.random()
+        if c < 0.15:
+            recs.append(list(recs[0]))
+        elif c < 0.45:
+            v = list(recs[0])
+            i = rng.randrange(len(fs))
+            v[i] = gen_bin_value(rng, fs[i])
+            recs.append(v)
+        else:
+            recs.append([gen_bin_value(rng, fd) for fd in fs])
+    nlines = rng.choice([1, 1, 2, 2, 3])
+    steps = []
+    for _ in range(rng.randint(3, 8)):
+        op = rng.choice(HIST_OPS)
+        li = -1 if rng.random() < 0.15 else rng.randrange(nlines)
+        st = [op, li, rng.randrange(nrec)]
+        if op in ("f", "g"):
+            st.append(rng.randrange(len(fs)))
+        steps.append(st)
+    return {"t": "hist", "fields": fs, "recs": recs, "nlines": nlines, "steps": steps}
+
+
 class CHECK(Check):
     pid = "C09"
     entry = "LINE"
@@ -93,7 +130,12 @@ class CHECK(Check):
             "exact in the narrower width and their neighbours, subnormals, overflow to inf, literals of every length, "
             "dates, None/NaN/NaT; each case writes, reads back and writes again; (c) single fields written into "
             "arbitrary pre-existing buffers of every length. non-trivial = not all values missing; distinct = hash"
-            " Later additions: values handed over as numpy scalars / bool / pd.NA; value lists shorter than the layout; nudged midpoints between adjacent narrow floats.")
+            " Later additions: values handed over as numpy scalars / bool / pd.NA; value lists shorter than the layout; nudged midpoints between adjacent narrow floats; (d) object histories: 2-3 records "
+            "(independent / one field apart / equal) x 3-8 steps through 1-3 Line objects declared over the SAME Field objects "
+            "or a Line made for one step (write a record, read a record's bytes, line.values = ..., field.value = ..., "
+            "field.read(bytes)) - every write must give the record's reference bytes and every read the values those bytes "
+            "hold, whatever the objects were used for before (the model is run on the same sequence of writes, reads and "
+            "value assignments; the two field-level steps are implementation-side only).")
     exhaustive = True
 
     @staticmethod
@@ -138,6 +180,8 @@ class CHECK(Check):
                 case["values"] = case["values"][:k] + [None] * (len(fs) - k)
                 case["nvals"] = k
             yield case
+        for _ in range(1200 if tier == "quick" else 30000):
+            yield gen_history(rng, gen_bin_layout(rng))
         for _ in range(1500 if tier == "quick" else 30000):
             fd = gen_bin_layout(rng)[0]
             ln = rng.randint(0, fd["start"] + fd["size"] + 3)
@@ -150,6 +194,8 @@ class CHECK(Check):
         if case["t"] == "buf":
             f = fl.mk_field(case["fd"], fl.py_value_typed(case["v"], self.case_hash(case)))
             return {"out": list(f.write(bytes(case["target"])))}
+        if case["t"] == "hist":
+            return self.impl_history(case)
         line = Line([fl.mk_field(fd) for fd in case["fields"]], storage="BINARY")
         if case["t"] == "pat":
             r = line.read(bytes(case["bytes"]))
@@ -164,12 +210,52 @@ class CHECK(Check):
         w2 = line.write(r)
         return {"w1": list(w), "read": [fl.canon_value(x) for x in r], "w2": list(w2)}
 
+    def impl_history(self, case):
+        from cfinterface.components.line import Line
+        fs = case["fields"]
+        fields = [fl.mk_field(fd) for fd in fs]
+        lines = [Line(fields, storage="BINARY") for _ in range(case["nlines"])]
+        recb = [self.ref_record(fs, vals) for vals in case["recs"]]
+        h = self.case_hash(case)
+        out = []
+        for n, st in enumerate(case["steps"]):
+            op, li, r = st[0], st[1], st[2]
+            line = lines[li] if li >= 0 else Line(fields, storage="BINARY")
+            hs = (h >> (n + 1)) if h & 1 else 0
+            if op == "w":
+                out.append(list(line.write([fl.py_value_typed(v, hs >> (3 * i)) for i, v in enumerate(case["recs"][r])])))
+            elif op == "r":
+                out.append([fl.canon_value(x) for x in line.read(recb[r])])
+            elif op == "v":
+                line.values = [fl.py_value_typed(v, hs >> (3 * i)) for i, v in enumerate(case["recs"][r])]
+                out.append(None)
+            elif op == "f":
+                line.fields[st[3]].value = fl.py_value_typed(case["recs"][r][st[3]], hs)
+                out.append(None)
+            else:
+                out.append(fl.canon_value(line.fields[st[3]].read(recb[r])))
+        return {"steps": out}
+
     def model_arg(self, case):
         if case["t"] == "buf":
             return [7, fl.field_sx(case["fd"]), fl.value_sx(case["v"]), case["target"]]
         ctor = [[[fl.field_sx(fd), []] for fd in case["fields"]], [], [], True]
         if case["t"] == "pat":
             return [0, ctor, [[4, case["bytes"]], [10]]]
+        if case["t"] == "hist":
+            # one model line object stands for all the Line objects of the case: they are declared over the same Field objects,
+            # and the values live in the Field objects (the model's slots)
+            rv = [[fl.value_sx(v) for v in vals] for vals in case["recs"]]
+            recb = [list(self.ref_record(case["fields"], vals)) for vals in case["recs"]]
+            ops = [[8, v] for v in rv]
+            for st in case["steps"]:
+                if st[0] == "w":
+                    ops.append([5, rv[st[2]]])
+                elif st[0] == "r":
+                    ops.append([4, recb[st[2]]])
+                elif st[0] == "v":
+                    ops.append([1, rv[st[2]]])
+            return [0, ctor, ops]
         vals = [fl.value_sx(v) for v in case["values"]][: case.get("nvals", len(case["values"]))]
         return [0, ctor, [[8, vals], [5, vals], [9], [10]]]
 
@@ -178,6 +264,21 @@ class CHECK(Check):
             return {"out": fl.obytes(res[0]), "fits": bool(res[1])}
         if case["t"] == "pat":
             return {"read": [fl.canon_model_value(v) for v in res[0]], "w2": fl.obytes(res[1]), "fits": True}
+        if case["t"] == "hist":
+            nrec = len(case["recs"])
+            it = iter(res[nrec:])
+            out = []
+            for st in case["steps"]:
+                if st[0] == "w":
+                    out.append(fl.obytes(next(it)))
+                elif st[0] == "r":
+                    out.append([fl.canon_model_value(v) for v in next(it)])
+                elif st[0] == "v":
+                    next(it)
+                    out.append(None)
+                else:
+                    out.append(["not-modelled"])
+            return {"steps": out, "fits": all(all(f) for f in res[:nrec])}
         fits, w1, r, w2 = res
         return {"w1": fl.obytes(w1), "read": [fl.canon_model_value(v) for v in r], "w2": fl.obytes(w2), "fits": all(fits)}
 
@@ -185,6 +286,11 @@ class CHECK(Check):
         return mobs["fits"]
 
     def compare(self, case, iobs, mobs):
+        if case["t"] == "hist" and "steps" in iobs:
+            for n, (st, a, b) in enumerate(zip(case["steps"], iobs["steps"], mobs["steps"])):
+                if st[0] in ("w", "r") and a != b:
+                    return "history step %d %r: impl=%r model=%r" % (n, st, a, b)
+            return None
         for k in iobs:
             if k in mobs and iobs[k] != mobs[k]:
                 return "%s: impl=%r model=%r" % (k, iobs[k], mobs[k])
@@ -206,6 +312,15 @@ class CHECK(Check):
         if k == "lit":
             return v[1].ljust(n).encode("ascii")
         return datetime.datetime(*v[1]).strftime(fd["formats"][0]).ljust(n).encode("ascii")
+
+    @classmethod
+    def ref_record(cls, fs, vals):
+        """the record the property describes for these values: as long as the furthest field end, each field's reference
+        encoding inside its own span, blanks elsewhere"""
+        rec = bytearray(b" " * max(fd["start"] + fd["size"] for fd in fs))
+        for fd, v in zip(fs, vals):
+            rec[fd["start"]: fd["start"] + fd["size"]] = cls.ref_bytes(fd, v)
+        return bytes(rec)
 
     @staticmethod
     def ref_value(fd, v):
@@ -249,6 +364,24 @@ class CHECK(Check):
             if fd["k"] == "int" and obs["read"] != [["int", int.from_bytes(bytes(case["bytes"]), "little", signed=True)]]:
                 return "two-byte pattern read as the wrong integer"
             return None
+        if case["t"] == "hist":
+            fs = case["fields"]
+            if len(obs["steps"]) != len(case["steps"]):
+                return "history: the observation does not cover the steps"
+            for n, (st, got) in enumerate(zip(case["steps"], obs["steps"])):
+                vals = case["recs"][st[2]]
+                if st[0] == "w" and got != list(self.ref_record(fs, vals)):
+                    return "history: a write gives bytes other than the record's reference encoding (step %d %r)" % (n, st)
+                if st[0] == "r":
+                    want = [self.ref_value(fd, v) for fd, v in zip(fs, vals)]
+                    if got != want:
+                        i = [a != b for a, b in zip(got, want)].index(True) if len(got) == len(want) else -1
+                        return "history: a read returns values other than the record's bytes hold (step %d %r, field %d: %r, the bytes hold %r)" % (
+                            n, st, i, got[i] if i >= 0 else got, want[i] if i >= 0 else want)
+                if st[0] == "g" and got != self.ref_value(fs[st[3]], vals[st[3]]):
+                    return "history: a field read returns a value other than the record's bytes hold (step %d %r: %r, the bytes hold %r)" % (
+                        n, st, got, self.ref_value(fs[st[3]], vals[st[3]]))
+            return None
         fs, vals = case["fields"], case["values"]
         end = max(fd["start"] + fd["size"] for fd in fs)
         w1 = obs["w1"]
@@ -271,6 +404,9 @@ class CHECK(Check):
     def nontrivial(self, case, obs):
         if case["t"] == "line":
             return any(v is not None and v[0] not in ("nan", "nat") for v in case["values"])
+        if case["t"] == "hist":
+            return (any(st[0] in ("r", "g") for st in case["steps"])
+                    and any(v is not None and v[0] not in ("nan", "nat") for vals in case["recs"] for v in vals))
         return True
 
     def classify(self, case):
@@ -278,6 +414,20 @@ class CHECK(Check):
         for fd in case.get("fields", [case.get("fd")] if case.get("fd") else []):
             key = "%s%d" % (fd["k"], fd["size"] if fd["k"] in ("int", "float") else 0)
             d[key] = d.get(key, 0) + 1
+        if case["t"] == "hist":
+            d["hist_lines_%d" % case["nlines"]] = 1
+            d["hist_steps"] = len(case["steps"])
+            for st in case["steps"]:
+                d["hist_op_" + st[0]] = d.get("hist_op_" + st[0], 0) + 1
+            if any(st[1] < 0 for st in case["steps"]):
+                d["hist_with_one_step_line"] = 1
+            # a Line object that reads a record it has read before, after something else happened to the shared Field objects
+            seen = {}
+            for n, st in enumerate(case["steps"]):
+                if st[0] == "r" and st[1] >= 0:
+                    if (st[1], st[2]) in seen and seen[(st[1], st[2])] < n - 1:
+                        d["hist_record_read_again_by_the_same_line"] = 1
+                    seen[(st[1], st[2])] = n
         return d
 
     def signature(self, case, why):
@@ -285,6 +435,33 @@ class CHECK(Check):
         return re.sub(r"[0-9]+", "#", why)[:70]
 
     def shrink(self, case):
+        if case["t"] == "hist":
+            for n in range(len(case["steps"])):
+                if len(case["steps"]) > 1:
+                    c = dict(case)
+                    c["steps"] = case["steps"][:n] + case["steps"][n + 1:]
+                    yield c
+            for i in range(len(case["fields"])):
+                if len(case["fields"]) > 1:
+                    c = dict(case)
+                    c["fields"] = case["fields"][:i] + case["fields"][i + 1:]
+                    c["recs"] = [vals[:i] + vals[i + 1:] for vals in case["recs"]]
+                    c["steps"] = [st if len(st) < 4 or st[3] < i else st[:3] + [st[3] - 1]
+                                  for st in case["steps"] if len(st) < 4 or st[3] != i]
+                    if c["steps"]:
+                        yield c
+            if case["nlines"] > 1:
+                c = dict(case)
+                c["nlines"] = case["nlines"] - 1
+                c["steps"] = [[st[0], min(st[1], c["nlines"] - 1)] + st[2:] for st in case["steps"]]
+                yield c
+            used = sorted({st[2] for st in case["steps"]})
+            if len(used) < len(case["recs"]):
+                c = dict(case)
+                c["recs"] = [case["recs"][r] for r in used]
+                c["steps"] = [[st[0], st[1], used.index(st[2])] + st[3:] for st in case["steps"]]
+                yield c
+            return
         if case["t"] == "line" and len(case["fields"]) > 1:
             for i in range(len(case["fields"])):
                 c = dict(case)
@@ -293,6 +470,9 @@ class CHECK(Check):
                 yield c
 
     def neighbours(self, case, rng):
+        if case["t"] == "hist":
+            for _ in range(20):
+                yield gen_history(rng, case["fields"])
         if case["t"] == "line":
             for _ in range(20):
                 c = dict(case)
